@@ -117,6 +117,7 @@ def main(ctx):
         req_strings += ctx.rng.sample(strings, 80000)
     request_part(ctx, model, req_strings)
     bounds_part(ctx, model)
+    converter_part(ctx, model)
     to_qs_part(ctx, uri, model)
 
 
@@ -451,6 +452,124 @@ def bounds_part(ctx, model):
                                    'max_value': mx, 'impl': impl, 'reference': spec,
                                    'clause': 'min_value / max_value are honoured exactly'},
                                   key='float-bounds-%s' % impl[0])
+
+
+def converter_values(ctx):
+    """for every oracle-backed getter: the accepted language of its reference converter, produced by
+    mutating valid values, plus near misses"""
+    rng = ctx.rng
+    u = '12345678-1234-5678-9abc-def012345678'
+    h = u.replace('-', '')
+    uuids = [u, h, u.upper(), h.upper(), '{' + u + '}', '{' + h + '}', 'urn:uuid:' + u, 'URN:UUID:' + u, 'urn:uuid:' + h,
+             '{urn:uuid:' + u + '}', h[:4] + '-' + h[4:], '-'.join(h[i:i + 4] for i in range(0, 32, 4)), '-' + h, h + '-',
+             '-'.join(h), ' ' + u, u + ' ', '\t' + h, u[:-1], u + '0', h[:-1] + 'g', '{' + u, u + '}', '{{' + u + '}}',
+             'uuid:' + u, 'urn:' + h, h[:16] + '_' + h[17:], '0x' + h[2:], '+' + h[1:], '', 'x', h.replace('1', '\u0661'),
+             u.replace('-', '\u2010')]
+    for _ in range(40):
+        x = list(rng.choice([u, h, '{' + u + '}', 'urn:uuid:' + u]))
+        for _ in range(rng.randint(1, 3)):
+            i = rng.randrange(len(x) + 1)
+            r = rng.random()
+            if r < 0.4:
+                x.insert(i, rng.choice('-{}:aA0 g'))
+            elif r < 0.7 and x:
+                del x[min(i, len(x) - 1)]
+            elif x:
+                j = min(i, len(x) - 1)
+                x[j] = x[j].swapcase()
+        uuids.append(''.join(x))
+    floats = ['1', '1.5', ' 1.5 ', '\t-2.25\n', '1e3', '1E3', '1e-3', '+.5', '-.5', '5.', '.', 'inf', '-inf', '+Infinity', 'INF',
+              'nan', 'NaN', '-nan', '1_0', '1__0', '_1', '1_', '1_0.0_1', '0x10', '1e', 'e1', '1e400', '-1e400', '1e-400', '-0.0',
+              '1,5', '1 5', '', ' ', '\uff11.\uff15', '\u0661\u0662', '1\xa0', '\xa01', '1\u20095', 'infinity1', '++1', '1.5.2', '0b1']
+    dts = {'%Y-%m-%dT%H:%M:%S%z': ['2020-02-29T23:59:59Z', '2020-02-29T23:59:59+00:00', '2021-02-29T00:00:00Z',
+                                   '0001-01-01T00:00:00+0000', '9999-12-31T23:59:59-2359', '2020-1-2T3:4:5Z', '2020-01-02t03:04:05z',
+                                   '2020-01-02T03:04:05', '2020-01-02T03:04:05+05:30', '2020-01-02T03:04:05+0530',
+                                   '2020-01-02T03:04:05+05:30:15', '2020-01-02T24:00:00Z', '2020-01-02T03:04:60Z',
+                                   '2020-01-02T03:04:61Z', '2020-13-01T00:00:00Z', '2020-00-10T00:00:00Z', ' 2020-01-02T03:04:05Z',
+                                   '2020-01-02T03:04:05Z ', '2020-01-02 03:04:05Z', '20200102T030405Z', '', 'x'],
+           '%Y-%m-%d': ['2020-02-29', '2021-02-29', '1900-02-29', '2000-02-29', '0001-01-01', '9999-12-31', '2020-1-2',
+                        '2020-01-32', '2020-04-31', '0000-01-01', '10000-01-01', '2020-01-02 ', ' 2020-01-02', '2020-01-02x',
+                        '2020/01/02', '\uff12\uff10\uff12\uff10-01-02', '', '2020-01'],
+           '%Y': ['1', '0001', '1994', '9999', '0000', '19945', ' 1994', '1994 ', 'abcd', ''],
+           '%d %b %Y %H:%M': ['15 Nov 1994 12:45', '15 nov 1994 12:45', '5 NOV 1994 2:5', '15  Nov 1994 12:45', '31 Nov 1994 00:00',
+                              '15 Nov 1994 24:00', '15 November 1994 12:45']}
+    jsons = ['1', '-0', '1e5', '1.5', 'true', 'false', 'null', '"x"', '""', '[]', '{}', '[1, 2.5, true, null, "x"]',
+             '{"a": {"b": [1, {"c": null}]}}', ' 1 ', '\n[1]\n', '"\xe9"', '"\u20ac"', '"\U0001f600"', '"ab\xe9"', '"\xe9ab"',
+             '{"\xe9": 1}', '{"k\u20ac": "v\U0001f600"}', '["\xe9", "\u20ac", "\U0001f600"]', '{"a": "\U0001f600"}',
+             '"\\u00e9"', '"\\ud83d\\ude00"', '"\xe9\xe9\xe9\xe9"', '[1, "\U0001f600\U0001f600"]', '"\u20ac" ',
+             '1\xe9', '"\xe9', '\xe9', '"\xe9"x', '[1,]', '{', '"unterminated', 'NaN', 'Infinity', '-Infinity', 'nan', "'x'",
+             '', ' ', '01', '1 2', '[1]\u20ac', '{"a":1}\xe9\xe9', '"x\xe9"]', '[1]x\U0001f600']
+    return uuids, floats, dts, jsons
+
+
+def converter_part(ctx, model):
+    """float / uuid / datetime / date / json getters against their reference converter over its whole
+    accepted language: getter == converter(last occurrence), 400 iff the converter raises ValueError"""
+    import falcon
+    import falcon.media
+    from falcon import testing, uri
+    rng = ctx.rng
+    uuids, floats, dts, jsons = converter_values(ctx)
+
+    def conv_outcome(conv, v):
+        try:
+            return [0, conv(v)]
+        except ValueError:
+            return [3]
+
+    def requests_for(v, handler_mode=0):
+        """the value as the last occurrence of p, percent-encoded and (when possible) literal, on WSGI/ASGI"""
+        forms = ['p=zzz&p=' + uri.encode_value(v)]
+        if v and not any(c in v for c in '&=+%#') and v == v.strip() and '\n' not in v and '\t' not in v:
+            forms.append('q=1&p=' + v)
+        for qs in forms:
+            for tr in TRANSPORTS[:2]:
+                opts = falcon.RequestOptions()
+                if handler_mode == 1:
+                    opts.media_handlers[falcon.MEDIA_JSON] = falcon.media.JSONHandler(loads=json.loads, dumps=json.dumps)
+                elif handler_mode == 2:
+                    del opts.media_handlers[falcon.MEDIA_JSON]
+                try:
+                    yield qs, tr, make_request(testing, qs, tr, opts)
+                except Exception as e:  # noqa: BLE001
+                    ctx.violation('request-raised', {'fn': 'Request', 'query_string': qs, 'transport': tr,
+                                                     'impl': type(e).__name__}, key='request-raised')
+
+    def judge(fn, qs, tr, v, impl, spec, req, extra=None):
+        ctx.count('conv-' + fn)
+        ctx.note_case(('conv', fn, qs, tr, json.dumps(extra, default=repr)), impl[0] == 0)
+        if req.get_param('p') != v:
+            return      # the transport did not deliver the value (covered by the parsing clauses)
+        if not same(impl, spec):
+            d = {'query_string': qs, 'keep_blank': True, 'csv': False, 'transport': tr, 'fn': fn, 'name': 'p',
+                 'required': False, 'value': v, 'impl': impl, 'reference': spec,
+                 'clause': 'the getter returns what the reference conversion gives for the last occurrence '
+                           '(400 iff the conversion raises ValueError)'}
+            d.update(extra or {})
+            ctx.violation('getter-clause-violated', d, key='conv-%s-%s' % (fn, impl[0]))
+
+    for v in uuids:
+        for qs, tr, req in requests_for(v):
+            judge('get_param_as_uuid', qs, tr, v, observe(falcon, req.get_param_as_uuid, 'p'), conv_outcome(uuid.UUID, v), req)
+    for v in floats:
+        for qs, tr, req in requests_for(v):
+            judge('get_param_as_float', qs, tr, v, observe(falcon, req.get_param_as_float, 'p'), conv_outcome(float, v), req)
+    for fmt, vals in dts.items():
+        for v in vals:
+            for qs, tr, req in requests_for(v):
+                kw = {} if fmt == '%Y-%m-%dT%H:%M:%S%z' and rng.random() < 0.5 else {'format_string': fmt}
+                if fmt != '%Y-%m-%d' or 'format_string' in kw:
+                    judge('get_param_as_datetime', qs, tr, v, observe(falcon, req.get_param_as_datetime, 'p', **kw),
+                          conv_outcome(lambda s: datetime.datetime.strptime(s, fmt), v), req, {'format_string': fmt})
+                if fmt != '%Y-%m-%dT%H:%M:%S%z':
+                    kw = {} if fmt == '%Y-%m-%d' and rng.random() < 0.5 else {'format_string': fmt}
+                    judge('get_param_as_date', qs, tr, v, observe(falcon, req.get_param_as_date, 'p', **kw),
+                          conv_outcome(lambda s: datetime.datetime.strptime(s, fmt).date(), v), req, {'format_string': fmt})
+    for v in jsons:
+        for mode in (0, 1, 2):
+            for qs, tr, req in requests_for(v, mode):
+                judge('get_param_as_json', qs, tr, v, observe(falcon, req.get_param_as_json, 'p'), conv_outcome(json_conv, v),
+                      req, {'json_handler': ['default options', 'custom JSONHandler', 'no handler registered'][mode]})
 
 
 def json_conv(s):
